@@ -3,40 +3,49 @@
    Anchors (autofit/non_linear/analysis/):
      analysis.py        Analysis.__add__ / __radd__
      combined.py        CombinedAnalysis.__new__/__init__/__add__/_summed_log_likelihood/
-                        n_cores setter/_for_each_analysis/make_result/with_free_parameters
+                        n_cores setter/_for_each_analysis/modify_before_fit/make_result/save_results/
+                        visualize/with_free_parameters
      multiprocessing.py AnalysisPool.__init__ (partition), __call__, results, map; AnalysisProcess._run
      indexed.py         IndexedAnalysis, IndexCollectionAnalysis.__init__/make_result
      free_parameter.py  FreeParameterAnalysis.modify_model
      model_analysis.py  ModelAnalysis, CombinedModelAnalysis.modify_model
 
-   The pinned code has four defects touching the property.  Each has a proposed repair
-   (proposed_fixes/C15-*.diff).  The model is parametrised by a record saying which
-   repairs the modelled code contains; `cfg_current` (all false) is the pinned tree. *)
+   The snapshot 75ee8d3 had four defects touching the property; all four are repaired in /repo
+   (1e4dc27, c4fcf7f, ab776e6, 1799c30).  A fifth one (free parameters drop per-analysis models)
+   has a proposed repair.  The model is parametrised by a record saying which repairs the
+   modelled code contains: `cfg_now` is /repo as it stands, `cfg_snapshot` the historical
+   snapshot (kept so that a regression has a name), `cfg_fixed` every repair applied. *)
 From Coq Require Import ZArith List Bool Arith Lia.
 Import ListNotations.
 
 Record cfg := mkCfg {
-  fix_order : bool;   (* Analysis.__add__(a, combined) keeps a first                     *)
-  fix_new   : bool;   (* CombinedAnalysis.__new__ sees a ModelAnalysis through IndexedAnalysis *)
-  fix_drain : bool;   (* AnalysisPool.results collects every result before raising       *)
-  fix_map   : bool    (* AnalysisPool.map gives analysis i the folder analysis_i          *)
+  fix_order : bool;     (* Analysis.__add__(a, combined) keeps a first                      (1e4dc27) *)
+  fix_new   : bool;     (* __new__ sees a ModelAnalysis through IndexedAnalysis             (c4fcf7f) *)
+  fix_drain : bool;     (* AnalysisPool.results collects every result before raising        (ab776e6) *)
+  fix_map   : bool;     (* AnalysisPool.map gives analysis i the folder analysis_i          (1799c30) *)
+  fix_free_own : bool;  (* FreeParameterAnalysis.modify_model frees inside the analysis' own model (proposed) *)
+  fix_model_hooks : bool (* ModelAnalysis forwards save_attributes / save_results to the wrapped analysis (proposed) *)
 }.
-Definition cfg_current := mkCfg false false false false.
-Definition cfg_fixed := mkCfg true true true true.
+Definition cfg_snapshot := mkCfg false false false false false false.
+Definition cfg_now := mkCfg true true true true false false.
+Definition cfg_fixed := mkCfg true true true true true true.
 
 (* ------------------------------------------------------------------------------------ *)
 (* A. the algebra of `+`                                                                 *)
 (* ------------------------------------------------------------------------------------ *)
 
-(* an expression as the user writes it; `hm` = the analysis was wrapped by with_model.
+(* an expression as the user writes it; `hm` = the analysis was wrapped by with_model;
+   Free e = e.with_free_parameters(...).
    sum([e1; e2; ...]) is ((e1 + e2) + ...) because Analysis.__radd__(x, 0) returns x. *)
-Inductive expr := Leaf (j : nat) (hm : bool) | Add (a b : expr).
+Inductive expr := Leaf (j : nat) (hm : bool) | Add (a b : expr) | Free (e : expr).
 
 (* members of CombinedAnalysis.analyses: a plain object or an IndexedAnalysis wrapper *)
 Inductive item := IPlain (j : nat) (hm : bool) | IIdx (j : nat) (hm : bool) (idx : nat).
 (* CombinedAnalysis | CombinedModelAnalysis | FreeParameterAnalysis *)
 Inductive ckind := KPlain | KModel | KFree.
-Inductive aval := VSingle (j : nat) (hm : bool) | VComb (k : ckind) (its : list item).
+(* VErr: the expression raises (TypeError: FreeParameterAnalysis.__init__ misses free_parameters;
+   AttributeError: a single Analysis has no with_free_parameters) *)
+Inductive aval := VSingle (j : nat) (hm : bool) | VComb (k : ckind) (its : list item) | VErr.
 
 Definition item_id (it : item) : nat := match it with IPlain j _ => j | IIdx j _ _ => j end.
 Definition item_hm (it : item) : bool := match it with IPlain _ h => h | IIdx _ h _ => h end.
@@ -62,39 +71,49 @@ Definition construct (c : cfg) (cls : ckind) (args : list item) : aval :=
 
 Definition add (c : cfg) (a b : aval) : aval :=
   match a, b with
+  | VErr, _ | _, VErr => VErr
+  | VComb KFree _, _ => VErr                 (* type(self)(...) without free_parameters *)
+  | VSingle _ _, VComb KFree _ => VErr       (* type(other)(self, ...) / other + self: the same *)
   | VSingle j h, VSingle j' h' => construct c KPlain [IPlain j h; IPlain j' h']
-  | VSingle j h, VComb k its =>            (* Analysis.__add__: `return other + self` *)
+  | VSingle j h, VComb k its =>              (* Analysis.__add__ *)
       if fix_order c then construct c k (IPlain j h :: its)
       else construct c k (its ++ [IPlain j h])
   | VComb k its, VSingle j h => construct c k (its ++ [IPlain j h])
   | VComb k its, VComb _ its' => construct c k (its ++ its')
   end.
 
+(* CombinedAnalysis.with_free_parameters *)
+Definition with_free (v : aval) : aval :=
+  match v with
+  | VComb _ its => VComb KFree (reindex_from 0 its)
+  | _ => VErr
+  end.
+
 Fixpoint eval (c : cfg) (e : expr) : aval :=
   match e with
   | Leaf j h => VSingle j h
   | Add a b => add c (eval c a) (eval c b)
-  end.
-
-(* CombinedAnalysis.with_free_parameters *)
-Definition with_free (c : cfg) (v : aval) : aval :=
-  match v with
-  | VSingle j h => VSingle j h
-  | VComb _ its => VComb KFree (reindex_from 0 its)
+  | Free e' => with_free (eval c e')
   end.
 
 (* what the property asks for: the analyses in the order written, index = position *)
 Fixpoint leaves (e : expr) : list (nat * bool) :=
-  match e with Leaf j h => [(j, h)] | Add a b => leaves a ++ leaves b end.
+  match e with Leaf j h => [(j, h)] | Add a b => leaves a ++ leaves b | Free e' => leaves e' end.
+Fixpoint nofree (e : expr) : bool :=
+  match e with Leaf _ _ => true | Add a b => nofree a && nofree b | Free _ => false end.
 Definition plain_items (l : list (nat * bool)) : list item := map (fun p => IPlain (fst p) (snd p)) l.
 Definition any_model (l : list (nat * bool)) : bool := existsb snd l.
 Definition spec_kind (l : list (nat * bool)) : ckind := if any_model l then KModel else KPlain.
 Definition spec_items (k : ckind) (l : list (nat * bool)) : list item :=
   match k with KPlain => plain_items l | _ => reindex_from 0 (plain_items l) end.
+(* sums without with_free_parameters inside; a finished sum with free parameters; anything that
+   adds to a FreeParameterAnalysis (or frees a single analysis) must raise *)
 Definition spec_struct (e : expr) : aval :=
   match e with
   | Leaf j h => VSingle j h
-  | Add _ _ => VComb (spec_kind (leaves e)) (spec_items (spec_kind (leaves e)) (leaves e))
+  | Add _ _ => if nofree e then VComb (spec_kind (leaves e)) (spec_items (spec_kind (leaves e)) (leaves e)) else VErr
+  | Free (Add a b) => if nofree (Add a b) then VComb KFree (spec_items KFree (leaves (Add a b))) else VErr
+  | Free _ => VErr
   end.
 
 Definition is_leaf (e : expr) : bool := match e with Leaf _ _ => true | _ => false end.
@@ -106,34 +125,46 @@ Fixpoint guard (c : cfg) (e : expr) : bool :=
       guard c a && guard c b
       && (fix_order c || negb (is_leaf a && negb (is_leaf b)))
       && (fix_new c || is_leaf a || is_leaf b || any_model (leaves a) || negb (any_model (leaves b)))
+  | Free e' => guard c e'
   end.
 
 (* ------------------------------------------------------------------------------------ *)
 (* B. likelihood of a sum: serial and through the pool                                   *)
 (* ------------------------------------------------------------------------------------ *)
 
-Inductive res := RVal (v : Z) | RExc.
+(* a value, or an exception of some class (0 = FitException, 1 = ValueError, ...) *)
+Inductive res := RVal (v : Z) | RExc (k : nat).
 
 Section Engine.
   Context {A X : Type}.
-  Variable ev : A -> X -> res.
 
-  (* _summed_log_likelihood: sum(generator); the first exception propagates *)
-  Fixpoint serial (l : list A) (x : X) : res :=
+  (* _summed_log_likelihood / _for_each_analysis: one after the other; the first exception propagates *)
+  Fixpoint serial (ev : A -> X -> res) (l : list A) (x : X) : res :=
     match l with
     | [] => RVal 0%Z
     | a :: r =>
         match ev a x with
-        | RExc => RExc
-        | RVal v => match serial r x with RExc => RExc | RVal s => RVal (v + s)%Z end
+        | RExc k => RExc k
+        | RVal v => match serial ev r x with RExc k => RExc k | RVal s => RVal (v + s)%Z end
         end
     end.
 
-  Definition raises (x : X) (a : A) : bool := match ev a x with RExc => true | RVal _ => false end.
-  Definition val (x : X) (a : A) : Z := match ev a x with RVal v => v | RExc => 0%Z end.
-  (* the property: the sum of every analysis' likelihood; raising iff one of them raises *)
-  Definition spec_sum (l : list A) (x : X) : res :=
-    if existsb (raises x) l then RExc else RVal (fold_right Z.add 0%Z (map (val x) l)).
+  Definition raises (ev : A -> X -> res) (x : X) (a : A) : bool := match ev a x with RExc _ => true | RVal _ => false end.
+  Definition val (ev : A -> X -> res) (x : X) (a : A) : Z := match ev a x with RVal v => v | RExc _ => 0%Z end.
+  Definition total (ev : A -> X -> res) (l : list A) (x : X) : Z := fold_right Z.add 0%Z (map (val ev x) l).
+  (* serial: the sum, or the exception of the first raising analysis *)
+  Fixpoint first_exc (ev : A -> X -> res) (l : list A) (x : X) : option nat :=
+    match l with
+    | [] => None
+    | a :: r => match ev a x with RExc k => Some k | RVal _ => first_exc ev r x end
+    end.
+  Definition spec_sum (ev : A -> X -> res) (l : list A) (x : X) : res :=
+    match first_exc ev l x with Some k => RExc k | None => RVal (total ev l x) end.
+  (* the property for any number of cores: the sum of every analysis' likelihood; when some
+     analyses raise, the exception of one of them *)
+  Definition ok_answer (ev : A -> X -> res) (l : list A) (x : X) (r : res) : Prop :=
+    if existsb (raises ev x) l then exists k a, In a l /\ ev a x = RExc k /\ r = RExc k
+    else r = RVal (total ev l x).
 
   (* AnalysisPool.__init__: n_processes = min(n, n_cores); ceil(n / n_processes) analyses each *)
   Definition ceil_div (n d : nat) : nat := (n + d - 1) / d.
@@ -143,25 +174,25 @@ Section Engine.
     let per := ceil_div n np in
     map (fun k => firstn per (skipn (k * per) l)) (seq 0 np).
 
-  (* __call__: the instance goes to every process; AnalysisProcess._run puts one result (or the
+  (* __call__ / map: the message goes to every process; AnalysisProcess._run puts one result (or the
      exception) per analysis, in order, on that process' queue *)
-  Fixpoint enqueue (procs : list (list A)) (x : X) (qs : list (list res)) : list (list res) :=
+  Fixpoint enqueue (ev : A -> X -> res) (procs : list (list A)) (x : X) (qs : list (list res)) : list (list res) :=
     match procs, qs with
-    | p :: procs', q :: qs' => (q ++ map (fun a => ev a x) p) :: enqueue procs' x qs'
+    | p :: procs', q :: qs' => (q ++ map (fun a => ev a x) p) :: enqueue ev procs' x qs'
     | _, _ => []
     end.
 
   (* one pass of `for process in self.processes` in results(): `mask` says for which processes
      queue.empty() answered False (missing entries: True whenever an item is pending).
-     acc = sum of results so far, count = count_, exc = an exception was met (repaired code) *)
+     acc = sum of results so far, count = count_, exc = first exception met (repaired code) *)
   Inductive sweep_out :=
-  | SRaise (qs : list (list res))
-  | SCont (qs : list (list res)) (acc : Z) (count : nat) (exc : bool).
+  | SRaise (k : nat) (qs : list (list res))
+  | SCont (qs : list (list res)) (acc : Z) (count : nat) (exc : option nat).
 
   Definition cons_out (q : list res) (o : sweep_out) : sweep_out :=
-    match o with SRaise t => SRaise (q :: t) | SCont t a c e => SCont (q :: t) a c e end.
+    match o with SRaise k t => SRaise k (q :: t) | SCont t a c e => SCont (q :: t) a c e end.
 
-  Fixpoint sweep (drain : bool) (mask : list bool) (qs : list (list res)) (acc : Z) (count : nat) (exc : bool)
+  Fixpoint sweep (drain : bool) (mask : list bool) (qs : list (list res)) (acc : Z) (count : nat) (exc : option nat)
     : sweep_out :=
     match qs with
     | [] => SCont [] acc count exc
@@ -170,22 +201,22 @@ Section Engine.
         let mask' := tl mask in
         match m, q with
         | true, RVal v :: q' => cons_out q' (sweep drain mask' qs' (acc + v)%Z (S count) exc)
-        | true, RExc :: q' =>
-            if drain then cons_out q' (sweep drain mask' qs' acc (S count) true)
-            else SRaise (q' :: qs')
+        | true, RExc k :: q' =>
+            if drain then cons_out q' (sweep drain mask' qs' acc (S count) (match exc with None => Some k | e => e end))
+            else SRaise k (q' :: qs')
         | _, _ => cons_out q (sweep drain mask' qs' acc count exc)
         end
     end.
 
   (* results(): `while count_ < n_analyses` around the pass; None = out of fuel *)
   Fixpoint results_loop (drain : bool) (fuel n : nat) (masks : list (list bool)) (qs : list (list res))
-           (acc : Z) (count : nat) (exc : bool) : option (res * list (list res)) :=
-    if n <=? count then Some (if exc then RExc else RVal acc, qs)
+           (acc : Z) (count : nat) (exc : option nat) : option (res * list (list res)) :=
+    if n <=? count then Some (match exc with Some k => RExc k | None => RVal acc end, qs)
     else match fuel with
          | O => None
          | S f =>
              match sweep drain (hd [] masks) qs acc count exc with
-             | SRaise qs' => Some (RExc, qs')
+             | SRaise k qs' => Some (RExc k, qs')
              | SCont qs' acc' count' exc' => results_loop drain f n (tl masks) qs' acc' count' exc'
              end
          end.
@@ -193,35 +224,10 @@ Section Engine.
   Definition call_fuel (n : nat) (masks : list (list bool)) (qs : list (list res)) : nat :=
     S (length masks + n + length (concat qs)).
 
-  Definition pool_call (drain : bool) (n : nat) (procs : list (list A)) (x : X) (masks : list (list bool))
-             (qs : list (list res)) : option (res * list (list res)) :=
-    let qs1 := enqueue procs x qs in
-    results_loop drain (call_fuel n masks qs1) n masks qs1 0%Z 0 false.
-
-  (* histories: evaluations and changes of n_cores (the setter builds a fresh pool) *)
-  Inductive op := OEval (x : X) (masks : list (list bool)) | OCores (k : nat).
-  Record st := mkSt { s_cores : nat; s_procs : list (list A); s_qs : list (list res) }.
-  Definition st_init : st := mkSt 1 [] [].
-  Definition set_cores (l : list A) (k : nat) : st :=
-    if 1 <? k then mkSt k (split_procs k l) (map (fun _ => []) (split_procs k l)) else mkSt k [] [].
-
-  Definition step (drain : bool) (l : list A) (s : st) (o : op) : st * list (option res) :=
-    match o with
-    | OCores k => (set_cores l k, [])
-    | OEval x masks =>
-        if 1 <? s_cores s then
-          match pool_call drain (length l) (s_procs s) x masks (s_qs s) with
-          | Some (r, qs') => (mkSt (s_cores s) (s_procs s) qs', [Some r])
-          | None => (s, [None])
-          end
-        else (s, [Some (serial l x)])
-    end.
-
-  Fixpoint run (drain : bool) (l : list A) (s : st) (ops : list op) : st * list (option res) :=
-    match ops with
-    | [] => (s, [])
-    | o :: r => let (s1, a1) := step drain l s o in let (s2, a2) := run drain l s1 r in (s2, a1 ++ a2)
-    end.
+  Definition pool_call (ev : A -> X -> res) (drain : bool) (n : nat) (procs : list (list A)) (x : X)
+             (masks : list (list bool)) (qs : list (list res)) : option (res * list (list res)) :=
+    let qs1 := enqueue ev procs x qs in
+    results_loop drain (call_fuel n masks qs1) n masks qs1 0%Z 0 None.
 
   (* folders: _for_each_analysis (serial) and AnalysisPool.map (pool) give (folder index, analysis) *)
   Fixpoint number_from {B} (i : nat) (l : list B) : list (nat * B) :=
@@ -234,8 +240,54 @@ Section Engine.
         (if fixed then number_from start p else map (fun a => (pi, a)) p)
           ++ folders_procs fixed (S pi) (start + length p) r
     end.
-  Definition folders (c : cfg) (cores : nat) (l : list A) : list (nat * A) :=
-    if 1 <? cores then folders_procs (fix_map c) 0 0 (split_procs cores l) else folders_serial l.
+  Definition folders (fixmap : bool) (cores : nat) (l : list A) : list (nat * A) :=
+    if 1 <? cores then folders_procs fixmap 0 0 (split_procs cores l) else folders_serial l.
+
+  (* histories: evaluations, visualize calls (through `map` whenever a pool exists) and changes of
+     n_cores (the setter builds a fresh pool for k > 1 and KEEPS the old one for k <= 1) *)
+  Inductive op := OEval (x : X) (masks : list (list bool)) | OMap (x : X) (masks : list (list bool)) | OCores (k : nat).
+  Record st := mkSt { s_cores : nat; s_pool : bool; s_procs : list (list A); s_qs : list (list res) }.
+  Definition st_init : st := mkSt 1 false [] [].
+  Definition set_cores (l : list A) (s : st) (k : nat) : st :=
+    if 1 <? k then mkSt k true (split_procs k l) (map (fun _ => []) (split_procs k l))
+    else mkSt k (s_pool s) (s_procs s) (s_qs s).
+
+  (* what one step shows: an answer (None = the model ran out of fuel) and, for visualize, the
+     (folder, analysis) pairs written *)
+  Inductive out := OutAns (r : option res) | OutMap (r : option res) (written : list (nat * A)).
+
+  Fixpoint written_serial (vis : A -> X -> res) (x : X) (l : list (nat * A)) : list (nat * A) :=
+    match l with
+    | [] => []
+    | (f, a) :: r => if raises vis x a then [] else (f, a) :: written_serial vis x r
+    end.
+
+  Variables ev vis : A -> X -> res.
+  Definition step (drain fixmap : bool) (l : list A) (s : st) (o : op) : st * list out :=
+    match o with
+    | OCores k => (set_cores l s k, [])
+    | OEval x masks =>
+        if 1 <? s_cores s then
+          match pool_call ev drain (length l) (s_procs s) x masks (s_qs s) with
+          | Some (r, qs') => (mkSt (s_cores s) (s_pool s) (s_procs s) qs', [OutAns (Some r)])
+          | None => (s, [OutAns None])
+          end
+        else (s, [OutAns (Some (serial ev l x))])
+    | OMap x masks =>
+        if s_pool s then
+          let w := filter (fun p => negb (raises vis x (snd p))) (folders_procs fixmap 0 0 (s_procs s)) in
+          match pool_call vis drain (length l) (s_procs s) x masks (s_qs s) with
+          | Some (r, qs') => (mkSt (s_cores s) (s_pool s) (s_procs s) qs', [OutMap (Some r) w])
+          | None => (s, [OutMap None w])
+          end
+        else (s, [OutMap (Some (serial vis l x)) (written_serial vis x (folders_serial l))])
+    end.
+
+  Fixpoint run (drain fixmap : bool) (l : list A) (s : st) (ops : list op) : st * list out :=
+    match ops with
+    | [] => (s, [])
+    | o :: r => let (s1, a1) := step drain fixmap l s o in let (s2, a2) := run drain fixmap l s1 r in (s2, a1 ++ a2)
+    end.
 End Engine.
 
 (* what an analysis sees: the instance itself (plain member) or instance[index] (indexed member) *)
@@ -245,7 +297,7 @@ Section ItemLik.
   Definition item_lik (it : item) (ci : S * list S) : res :=
     match it with
     | IPlain j _ => lik j (fst ci)
-    | IIdx j _ i => match nth_error (snd ci) i with Some s => lik j s | None => RExc end
+    | IIdx j _ i => match nth_error (snd ci) i with Some s => lik j s | None => RExc 2 end
     end.
 End ItemLik.
 
@@ -268,14 +320,23 @@ Definition free_model (free : list nat) (i : nat) (m : list nat) : list pid :=
   map (fun p => if memn p free then Fresh i p else Orig p) m.
 Definition modify_free (free : list nat) (n : nat) (m : list nat) : list (list pid) :=
   map (fun i => free_model free i m) (seq 0 n).
-(* CombinedModelAnalysis.modify_model: the analysis' own model, else the default one *)
+(* the model an analysis brings: its own (with_model), else the default one *)
+Definition base_model (default : list nat) (own : list (list nat)) (it : item) : list nat :=
+  if item_hm it then nth (item_id it) own [] else default.
+(* CombinedModelAnalysis.modify_model *)
 Definition modify_models (default : list nat) (own : list (list nat)) (its : list item) : list (list pid) :=
-  map (fun it => map Orig (if item_hm it then nth (item_id it) own [] else default)) its.
+  map (fun it => map Orig (base_model default own it)) its.
+(* free parameters over analyses with their own models: the code copies the default model for
+   everybody; the proposed repair frees inside each analysis' own model *)
+Definition modify_free_own (free : list nat) (default : list nat) (own : list (list nat)) (its : list item)
+  : list (list pid) :=
+  map (fun p => free_model free (fst p) (base_model default own (snd p))) (number_from 0 its).
 
-Definition fitted_models (k : ckind) (its : list item) (default : list nat) (own : list (list nat))
+Definition fitted_models (c : cfg) (k : ckind) (its : list item) (default : list nat) (own : list (list nat))
            (free : list nat) : list (list pid) :=
   match k with
-  | KFree => modify_free free (length its) default
+  | KFree => if fix_free_own c then modify_free_own free default own its
+             else modify_free free (length its) default
   | KModel => modify_models default own its
   | KPlain => []
   end.
@@ -289,25 +350,49 @@ Definition classes (ms : list (list pid)) : list (list nat) :=
   let f := firsts (concat ms) in map (map (fun p => index_of p f)) ms.
 Definition prior_count (ms : list (list pid)) : nat := length (firsts (concat ms)).
 
-(* IndexCollectionAnalysis.make_result: zip(samples_summary.model, self.analyses) *)
-Definition children {M B} (models : list M) (analyses : list B) : list (M * B) := combine models analyses.
-
 (* ------------------------------------------------------------------------------------ *)
-(* D. executable instance used by the correspondence                                     *)
+(* D. a fit: modify_before_fit -> modify_model -> make_result -> save_results             *)
 (* ------------------------------------------------------------------------------------ *)
 
-Record adesc := mkA { a_c : Z; a_w : list Z; a_fail : list Z }.
+(* modify_before_fit rebuilds the combined analysis from its members, in order *)
+Definition rebuilt (c : cfg) (k : ckind) (its : list item) : list item :=
+  match k with KPlain => its | _ => reindex_from 0 its end.
+(* CombinedAnalysis.make_result: one child per analysis; IndexCollectionAnalysis.make_result:
+   zip(samples_summary.model, self.analyses).  A child = (model index or None, analysis) *)
+Definition children (k : ckind) (n_models : nat) (its : list item) : list (option nat * item) :=
+  match k with
+  | KPlain => map (fun it => (None, it)) its
+  | _ => map (fun p => (Some (fst p), snd p)) (combine (seq 0 n_models) its)
+  end.
+(* _for_each_analysis(func, paths, result): folder i, analysis i, child result i *)
+Definition saved (its : list item) (ch : list (option nat * item)) : list (nat * (item * (option nat * item))) :=
+  number_from 0 (combine its ch).
+
+(* ------------------------------------------------------------------------------------ *)
+(* E. executable instance used by the correspondence                                     *)
+(* ------------------------------------------------------------------------------------ *)
+
+(* harness analyses: affine in the parameter values; raise FitException / ValueError when the first
+   value is listed; visualize raises when the first value is listed in a_vfail / a_vfail2 *)
+Record adesc := mkA { a_c : Z; a_w : list Z; a_fail : list Z; a_fail2 : list Z; a_vfail : list Z; a_vfail2 : list Z }.
 Fixpoint dot (w s : list Z) : Z :=
   match w, s with a :: w', b :: s' => a * b + dot w' s' | _, _ => 0 end%Z.
-(* harness analyses: affine in the parameter values; raise when the first value is listed *)
+Definition memz (z : Z) (l : list Z) : bool := existsb (Z.eqb z) l.
 Definition lik_of (a : adesc) (s : list Z) : res :=
-  if existsb (Z.eqb (hd 0%Z s)) (a_fail a) then RExc else RVal (a_c a + dot (a_w a) s).
-Definition lik_tab (ads : list adesc) (j : nat) (s : list Z) : res := lik_of (nth j ads (mkA 0 [] [])) s.
+  if memz (hd 0%Z s) (a_fail a) then RExc 0
+  else if memz (hd 0%Z s) (a_fail2 a) then RExc 1
+  else RVal (a_c a + dot (a_w a) s).
+Definition vis_of (a : adesc) (s : list Z) : res :=
+  if memz (hd 0%Z s) (a_vfail a) then RExc 0
+  else if memz (hd 0%Z s) (a_vfail2 a) then RExc 1
+  else RVal 0.
+Definition nth_ad (ads : list adesc) (j : nat) : adesc := nth j ads (mkA 0 [] [] [] [] []).
 Definition cinst := (list Z * list (list Z))%type.
-Definition ev_items (ads : list adesc) : item -> cinst -> res := item_lik (lik_tab ads).
+Definition ev_items (ads : list adesc) : item -> cinst -> res := item_lik (fun j s => lik_of (nth_ad ads j) s).
+Definition vis_items (ads : list adesc) : item -> cinst -> res := item_lik (fun j s => vis_of (nth_ad ads j) s).
 
 Definition res_eqb (a b : res) : bool :=
-  match a, b with RVal v, RVal w => Z.eqb v w | RExc, RExc => true | _, _ => false end.
+  match a, b with RVal v, RVal w => Z.eqb v w | RExc k, RExc l => Nat.eqb k l | _, _ => false end.
 Definition ores_eqb (a b : option res) : bool :=
   match a, b with Some x, Some y => res_eqb x y | _, _ => false end.
 Fixpoint list_eqb {B} (eqb : B -> B -> bool) (a b : list B) : bool :=
@@ -328,12 +413,13 @@ Definition aval_eqb (a b : aval) : bool :=
   match a, b with
   | VSingle j h, VSingle k g => Nat.eqb j k && Bool.eqb h g
   | VComb k its, VComb k' its' => ckind_eqb k k' && list_eqb item_eqb its its'
+  | VErr, VErr => true
   | _, _ => false
   end.
 Definition pair_eqb (a b : nat * nat) : bool := Nat.eqb (fst a) (fst b) && Nat.eqb (snd a) (snd b).
 
-Definition items_of (v : aval) : list item := match v with VSingle j h => [IPlain j h] | VComb _ its => its end.
-Definition kind_of (v : aval) : ckind := match v with VSingle _ _ => KPlain | VComb k _ => k end.
+Definition items_of (v : aval) : list item := match v with VSingle j h => [IPlain j h] | VComb _ its => its | VErr => [] end.
+Definition kind_of (v : aval) : ckind := match v with VComb k _ => k | _ => KPlain end.
 (* an indexed collection whose k-th member reads sub-instance k *)
 Fixpoint well_indexed_from (i : nat) (its : list item) : bool :=
   match its with
@@ -342,50 +428,86 @@ Fixpoint well_indexed_from (i : nat) (its : list item) : bool :=
   | IPlain _ _ :: _ => false
   end.
 
+(* observed steps: answers and, for visualize, (folder, analysis id) pairs *)
+Inductive obs_out := ObsAns (r : option res) | ObsMap (r : option res) (written : list (nat * nat)).
+Definition out_eqb (a : out (A := item)) (b : obs_out) : bool :=
+  match a, b with
+  | OutAns r, ObsAns r' => ores_eqb r r'
+  | OutMap r w, ObsMap r' w' => ores_eqb r r' && list_eqb pair_eqb (map (fun p => (fst p, item_id (snd p))) w) w'
+  | _, _ => false
+  end.
+Fixpoint outs_eqb (a : list (out (A := item))) (b : list obs_out) : bool :=
+  match a, b with
+  | [], [] => true
+  | x :: a', y :: b' => out_eqb x y && outs_eqb a' b'
+  | _, _ => false
+  end.
+
 (* evaluations of the indexed kinds carry one value per prior class *)
-Inductive iop := IEval (vals : list Z) (masks : list (list bool)) | ICores (k : nat).
+Inductive iop := IEval (vals : list Z) (masks : list (list bool)) | IMap (vals : list Z) (masks : list (list bool))
+               | ICores (k : nat).
+Definition parts_of (cls : list (list nat)) (vals : list Z) : cinst :=
+  ([], map (map (fun k => nth k vals 0%Z)) cls).
 Definition iop_to_op (cls : list (list nat)) (o : iop) : op (X := cinst) :=
   match o with
-  | IEval vals masks => OEval ([], map (map (fun k => nth k vals 0%Z)) cls) masks
+  | IEval vals masks => OEval (parts_of cls vals) masks
+  | IMap vals masks => OMap (parts_of cls vals) masks
   | ICores k => OCores k
   end.
 
+Definition free_of (e : expr) : bool := match e with Free _ => true | _ => false end.
+
 Inductive case :=
-(* structure of the combined analysis for an arbitrary bracketing (+ optional with_free_parameters) *)
-| CStruct (e : expr) (free : bool) (obs : aval)
-(* history of evaluations on a sum of plain analyses; instance = one integer *)
+(* structure of the combined analysis for an arbitrary expression *)
+| CStruct (e : expr) (obs : aval)
+(* history of evaluations / visualize calls / changes of cores on a sum of plain analyses; instance = one integer *)
 | CHist (ads : list adesc) (e : expr) (ops : list (op (X := cinst)))
-        (obs : aval) (answers : list (option res)) (residue : list (list res))
-(* free parameters / per-analysis models: structure, sharing classes, prior count, evaluations *)
-| CIdx (ads : list adesc) (e : expr) (default : list nat) (own : list (list nat)) (free : option (list nat))
+        (obs : aval) (outs : list obs_out) (residue : list (list res))
+(* free parameters / per-analysis models: structure, sharing classes, prior count, histories *)
+| CIdx (ads : list adesc) (e : expr) (default : list nat) (own : list (list nat)) (free : list nat)
        (obs : aval) (obs_classes : list (list nat)) (obs_count : nat)
-       (ops : list iop) (answers : list (option res)) (residue : list (list res))
-(* folders used by visualize: serial or through the pool; (folder, analysis id) in analysis order *)
-| CFolders (ids : list nat) (cores : nat) (obs : list (nat * nat))
-(* a real fit: folders written by save_attributes / save_results, child results (analysis, model index) *)
-| CFit (ids : list nat) (obs_attr obs_res : list (nat * nat)) (obs_children : list (nat * nat)).
+       (ops : list iop) (outs : list obs_out) (residue : list (list res))
+(* a real fit: per folder the analysis that saved attributes / visualised before the fit / saved results
+   (with the child result it was handed), and the child results (analysis, sharing classes of its model) *)
+| CFit (e : expr) (default : list nat) (own : list (list nat)) (free : list nat)
+       (obs_attr obs_vbf : list (nat * nat)) (obs_res : list (nat * (nat * nat)))
+       (obs_children : list (nat * list nat)).
 
 Definition check_case (c : cfg) (cs : case) : bool :=
   match cs with
-  | CStruct e free obs =>
-      aval_eqb (if free then with_free c (eval c e) else eval c e) obs
-  | CHist ads e ops obs answers residue =>
+  | CStruct e obs => aval_eqb (eval c e) obs
+  | CHist ads e ops obs outs residue =>
       let v := eval c e in
-      let '(s, ans) := run (ev_items ads) (fix_drain c) (items_of v) st_init ops in
-      aval_eqb v obs && list_eqb ores_eqb ans answers && list_eqb (list_eqb res_eqb) (s_qs s) residue
-  | CIdx ads e default own free obs obs_classes obs_count ops answers residue =>
-      let v := match free with Some _ => with_free c (eval c e) | None => eval c e end in
+      let '(s, os) := run (ev_items ads) (vis_items ads) (fix_drain c) (fix_map c) (items_of v) st_init ops in
+      aval_eqb v obs && outs_eqb os outs && list_eqb (list_eqb res_eqb) (s_qs s) residue
+  | CIdx ads e default own free obs obs_classes obs_count ops outs residue =>
+      let v := eval c e in
       let its := items_of v in
-      let ms := fitted_models (kind_of v) its default own (match free with Some f => f | None => [] end) in
+      let ms := fitted_models c (kind_of v) its default own free in
       let cls := classes ms in
       aval_eqb v obs
-      && (if well_indexed_from 0 its then
-            let '(s, ans) := run (ev_items ads) (fix_drain c) its st_init (map (iop_to_op cls) ops) in
+      && (if well_indexed_from 0 its && negb (match v with VErr => true | _ => false end) then
+            let '(s, os) := run (ev_items ads) (vis_items ads) (fix_drain c) (fix_map c) its st_init
+                                (map (iop_to_op cls) ops) in
             list_eqb (list_eqb Nat.eqb) cls obs_classes && Nat.eqb (prior_count ms) obs_count
-            && list_eqb ores_eqb ans answers && list_eqb (list_eqb res_eqb) (s_qs s) residue
-          else match obs_classes, answers with [], [] => true | _, _ => false end)
-  | CFolders ids cores obs => list_eqb pair_eqb (folders c cores ids) obs
-  | CFit ids obs_attr obs_res obs_children =>
-      list_eqb pair_eqb (folders_serial ids) obs_attr && list_eqb pair_eqb (folders_serial ids) obs_res
-      && list_eqb pair_eqb (map (fun p => (snd p, fst p)) (children (seq 0 (length ids)) ids)) obs_children
+            && outs_eqb os outs && list_eqb (list_eqb res_eqb) (s_qs s) residue
+          else match obs_classes, outs with [], [] => true | _, _ => false end)
+  | CFit e default own free obs_attr obs_vbf obs_res obs_children =>
+      let v := eval c e in
+      let k := kind_of v in
+      let its := rebuilt c k (items_of v) in
+      let ms := fitted_models c k its default own free in
+      let cls := match k with KPlain => classes [map Orig default] | _ => classes ms end in
+      let ch := children k (length ms) its in
+      let ids := map (fun p => (fst p, item_id (snd p))) (folders_serial its) in
+      (* a ModelAnalysis inherits the empty save_attributes / save_results of Analysis *)
+      let hooked {B} (f : B -> item) := filter (fun p : B => fix_model_hooks c || negb (item_hm (f p))) in
+      list_eqb pair_eqb (map (fun p => (fst p, item_id (snd p))) (hooked snd (folders_serial its))) obs_attr
+      && list_eqb pair_eqb ids obs_vbf
+      && list_eqb (fun a b => Nat.eqb (fst a) (fst b) && pair_eqb (snd a) (snd b))
+           (map (fun p => (fst p, (item_id (fst (snd p)), item_id (snd (snd (snd p))))))
+                (hooked (fun p => fst (snd p)) (saved its ch))) obs_res
+      && list_eqb (fun a b => Nat.eqb (fst a) (fst b) && list_eqb Nat.eqb (snd a) (snd b))
+           (map (fun p => (item_id (snd p), match fst p with Some i => nth i cls [] | None => nth 0 cls [] end)) ch)
+           obs_children
   end.
